@@ -39,14 +39,18 @@ UNIT = {
           ensures=[('is_workspace_deploy', '(r is Ok == ws_deploy_ok(ws(*old(workspace)))) && (r is Ok ==> ws(*final(workspace)) == ws_deploy(ws(*old(workspace)))) && (r is Err ==> ws(*final(workspace)) == ws(*old(workspace)))')]),
     ],
 }
-NOT_DECIDED = {'C18': ['well-formedness of the JSON text (serde / jsonify are string code: Value::jsonify does not escape strings - outside this family, see DESIGN.md)',
+NOT_DECIDED = {'C18': ['well-formedness of the JSON text: jsonify is string code outside Verus\' reach - only the BOUNDED stand-in evaluate-response-is-json looks at it; values without a JSON rendering (functions, ranges, Infinity / NaN numbers: C02 known findings) are not decided',
                        'TCK DTO round trip: only the BOUNDED stand-in tck-dto-round-trip (dto.rs is not under contract); actix routing, lock handling, survival after malformed requests',
                        'do_evaluate / do_evaluate_tck take &Workspace: they cannot modify it (enforced by the type checker, not by a contract)']}
 ASSUMPTIONS = ['the workspace operations are uninterpreted state transformers here; their meaning is proved in unit workspace (C17)',
                'base64::decode, String::from_utf8 and dmntk_model::parse are total functions returning a Result (R11 stubs)']
 
 BOUNDED = {
-    'C18': [{'name': 'tck-dto-round-trip', 'driver': 'tck', 'args': [],
+    'C18': [{'name': 'evaluate-response-is-json', 'driver': 'json', 'args': [],
+             'functions': ['Value::jsonify, Values::jsonify, FeelContext::jsonify, FeelNumber::jsonify (feel, feel-number)'],
+             'bound': '671 values (the TCK grid plus contexts with a key that needs escaping): {"data": <jsonify>} parses with serde_json and decodes to the value - strings, booleans, null, lists, contexts structurally, numbers at f64 precision, '
+                      'dates / times / durations as JSON strings of their FEEL text'},
+            {'name': 'tck-dto-round-trip', 'driver': 'tck', 'args': [],
              'functions': ['server/src/dto.rs (compiled into the driver from the repository file): TryFrom<&Value> for ValueDto, TryFrom<&ValueDto / &SimpleDto / &Vec<ComponentDto> / &ComponentDto / &ListDto / &Vec<ValueDto>> for WrappedValue', 'serde_json (real)'],
              'bound': '650 values: 31 scalars of every TCK kind (strings with quotes, backslashes, control and non-ASCII characters; numbers; booleans; null; dates; times with and without offset; date-times; both duration kinds) and the lists / '
                       'contexts built from them to nesting depth 2 (empty, singleton, pairs, names with spaces): value -> DTO -> JSON text -> DTO -> value gives the value back (null messages aside)'}],
